@@ -44,7 +44,7 @@ def sqlLine (st : SqlState) (toks : Array String) : SqlState × List Msg :=
         let names ← parseNames
         let _ ← next
         let nrows ← nat
-        let rows ← many nrows (many nc (do
+        let rows ← many nrows (many names.length (do
           let t ← next
           match sqlValTok t with
           | .ok v => return v
@@ -56,7 +56,7 @@ def sqlLine (st : SqlState) (toks : Array String) : SqlState × List Msg :=
         if precision == 0 then b else match st.fixedO.find? (·.1 == b) with
           | some (_, r) => r
           | none => b
-      let exp := readSqlS names (cz.map (·.2)) fixed pfloatDec rows
+      let exp := readSqlNamedS names cz fixed pfloatDec rows
       -- NULLs in int / bool columns are outside the property's quantifier (C19: NULLs occur in text or float columns)
       let outOfScope := (List.range names.length).any (fun j =>
         let col := rows.map (fun r => r[j]!)
